@@ -19,6 +19,7 @@ import (
 
 	mqtt "github.com/mochi-mqtt/server/v2"
 	"github.com/mochi-mqtt/server/v2/hooks/auth"
+	"github.com/mochi-mqtt/server/v2/packets"
 	"pgregory.net/rapid"
 	"verif/harness/evid"
 )
@@ -33,6 +34,23 @@ type c37Conn struct {
 	GapsMs  []int  `json:"gaps_ms,omitempty"` // gap (from the previous send) before each further packet
 	Kinds   []int  `json:"kinds,omitempty"`   // per further packet: 0 PINGREQ, 1 PUBLISH QoS 0, 2 SUBSCRIBE QoS 0 to the feed topic
 	Intent  string `json:"intent,omitempty"`  // what the generator meant (informational; the verdict uses measured times only)
+	// Ask: the keepalive the CONNECT carries when the server overrides it. K stays the keepalive in force: an OnConnect
+	// hook imposes K on this connection (State.Keepalive + ServerKeepalive, announced in the v5 CONNACK), whatever was asked
+	Ask *int `json:"ask,omitempty"`
+}
+
+// c37Override imposes a server keepalive on connections whose client identifier starts with "sk<K>-".
+type c37Override struct{ mqtt.HookBase }
+
+func (h *c37Override) ID() string           { return "c37-server-keepalive" }
+func (h *c37Override) Provides(b byte) bool { return b == mqtt.OnConnect }
+func (h *c37Override) OnConnect(cl *mqtt.Client, pk packets.Packet) error {
+	var k int
+	if n, _ := fmt.Sscanf(cl.ID, "sk%d-", &k); n == 1 {
+		cl.State.Keepalive = uint16(k)
+		cl.State.ServerKeepalive = true
+	}
+	return nil
 }
 
 type c37Case struct {
@@ -225,7 +243,11 @@ type c37Obs struct {
 
 func c37Connect(cn c37Conn, id string) []byte {
 	var body []byte
-	body = append(body, 0, 4, 'M', 'Q', 'T', 'T', byte(cn.Ver), 0x02, byte(cn.K>>8), byte(cn.K))
+	k := cn.K
+	if cn.Ask != nil {
+		k = *cn.Ask
+	}
+	body = append(body, 0, 4, 'M', 'Q', 'T', 'T', byte(cn.Ver), 0x02, byte(k>>8), byte(k))
 	if cn.Ver == 5 {
 		body = append(body, 0) // no properties
 	}
@@ -352,7 +374,11 @@ func c37RunConn(e *c37Env, cn c37Conn, idx int, c net.Conn, dialErr error) (o c3
 	}
 
 	time.Sleep(time.Until(e.begin.Add(time.Duration(cn.StartMs) * time.Millisecond)))
-	alive := send(c37Connect(cn, fmt.Sprintf("c37-%d", idx)))
+	id := fmt.Sprintf("c37-%d", idx)
+	if cn.Ask != nil {
+		id = fmt.Sprintf("sk%d-%d", cn.K, idx) // the override hook imposes K on this connection
+	}
+	alive := send(c37Connect(cn, id))
 	last := e.t0
 	if alive {
 		last = e.t0.Add(time.Duration(o.B[0]) * time.Microsecond)
@@ -622,6 +648,7 @@ var c37S = c37Stats{closeOff: map[int][]int64{}}
 func c37Execute(c c37Case, r *evid.Rec) ([]c37Obs, *c37Jitter, bool, bool) {
 	srv := mqtt.New(&mqtt.Options{Logger: slog.New(slog.NewTextHandler(io.Discard, &slog.HandlerOptions{Level: slog.LevelError + 4}))})
 	_ = srv.AddHook(new(auth.AllowHook), nil)
+	_ = srv.AddHook(new(c37Override), nil)
 	var hwg sync.WaitGroup
 	e := &c37Env{srv: srv, hwg: &hwg}
 	var ln net.Listener
@@ -865,6 +892,9 @@ func c37Check(c c37Case, r *evid.Rec) []evid.Disc {
 func c37Key(cn c37Conn, tr string) string {
 	var sb strings.Builder
 	fmt.Fprintf(&sb, "%d|%d|%s", cn.K, cn.Ver, tr)
+	if cn.Ask != nil {
+		fmt.Fprintf(&sb, "|asked %d", *cn.Ask)
+	}
 	for i, g := range cn.GapsMs {
 		k := 0
 		if i < len(cn.Kinds) {
@@ -883,6 +913,13 @@ func c37GenConn(rt *rapid.T, i int) c37Conn {
 		Ver:     rapid.SampledFrom([]int{4, 5}).Draw(rt, "ver"),
 		TCP:     rapid.Bool().Draw(rt, "tcp"),
 		StartMs: rapid.IntRange(0, 250).Draw(rt, "start"),
+	}
+	if cn.K > 0 && rapid.IntRange(0, 3).Draw(rt, "server-keepalive") == 0 {
+		// the server imposes K; the client asked for something else (much longer, shorter, or none at all)
+		ask := rapid.SampledFrom([]int{0, 60, 1, 3, 10}).Draw(rt, "ask")
+		if ask != cn.K {
+			cn.Ask = &ask
+		}
 	}
 	budget := c37Horizon - cn.StartMs - 150 // ms available after CONNECT
 	kind := func() int { return rapid.SampledFrom([]int{0, 0, 0, 1}).Draw(rt, "kind") }
@@ -983,7 +1020,7 @@ func c37Gen(rt *rapid.T) c37Case {
 
 func TestC37(t *testing.T) {
 	r := evid.New("C37", "real time: each case opens 30-60 concurrent connections (net.Pipe and loopback TCP handed to Server.EstablishConnection, allow-all auth, v4/v5) "+
-		"with keepalive K in {0,1,2,3} s and a script of PINGREQ / QoS 0 PUBLISH gaps followed by silence; one evaluation = one connection. "+
+		"with keepalive K in {0,1,2,3} s and a script of PINGREQ / QoS 0 PUBLISH gaps followed by silence; for a quarter of the K > 0 connections K is imposed by the server (an OnConnect hook sets the keepalive, announced in the v5 CONNACK) while the CONNECT asked for 0 / 1 / 3 / 10 / 60 s; one evaluation = one connection. "+
 		"A quarter of the K > 0 connections first SUBSCRIBE (QoS 0) to a feed topic on which a separate keepalive-0 publisher sends a message every 200-400 ms all case long, so that they keep RECEIVING while silent (label receiving-while-silent: >= 3 deliveries during the final silence, never more than K seconds apart); only packets FROM the client count, the oracle is the same. "+
 		"Oracle on MEASURED send and close times with boundary 1.5 x K and margin max(K/4, 0.4 s): every gap <= 1.5K - margin must be survived; after a gap or silence >= 1.5K + margin the "+
 		"connection must have been closed, not earlier than 1.5K - margin after the last packet; K = 0 is never closed. Connections whose measured gaps fall inside a margin, or whose intervals saw a "+
